@@ -762,7 +762,8 @@ lkcd_read_page(struct page_io *pio)
 	type = dp.dp_flags & (DUMP_COMPRESSED|DUMP_RAW);
 	switch (type) {
 	case DUMP_COMPRESSED:
-		if (dp.dp_size > MAX_PAGE_SIZE)
+		/* The buffer for compressed data holds one page. */
+		if (dp.dp_size > get_page_size(ctx))
 			return set_error(ctx, KDUMP_ERR_CORRUPT,
 					 "Wrong compressed size: %lu",
 					 (unsigned long) dp.dp_size);
